@@ -186,7 +186,7 @@ func vfC20ServerCase(t *testing.T, k *vfKit, caseID string, r *rand.Rand) {
 			}
 			seq++
 			data := vfC20RefEncodeValid(m, typ, vfC20Tag(seq), vfC20RandBytes(r, vfC20PadLen(r)))
-			tl = append(tl, inj{pl.StartAt + pl.At, mk("punch-peer-"+pl.Mode, data, udpAddrFromAddrPort(peers[i])), false, i})
+			tl = append(tl, inj{pl.StartAt + pl.At, mk("punch-peer-"+pl.Mode, data, vfC20UDPAddr(peers[i])), false, i})
 		}
 		// after Respond returned: removed -> must pass
 		seq++
@@ -229,14 +229,14 @@ func vfC20ServerCase(t *testing.T, k *vfKit, caseID string, r *rand.Rand) {
 		seq++
 		var from net.Addr
 		if j == 0 {
-			from = udpAddrFromAddrPort(refPeer)
+			from = vfC20UDPAddr(refPeer)
 		}
 		at := refAt + time.Duration(1+r.Intn(50))*time.Millisecond
 		tl = append(tl, inj{at, mk("punch-after-refused-respond", vfC20PunchValid(r, seq, refMeta), from), true, -1})
 	}
 	if ref2Hello > 0 {
 		seq++
-		tl = append(tl, inj{ref2At + ref2Hello, mk("punch-peer-hello-ref2", vfC20RefEncodeValid(refMeta, 1, vfC20Tag(seq), vfC20RandBytes(r, vfC20PadLen(r))), udpAddrFromAddrPort(refPeer)), false, -1})
+		tl = append(tl, inj{ref2At + ref2Hello, mk("punch-peer-hello-ref2", vfC20RefEncodeValid(refMeta, 1, vfC20Tag(seq), vfC20RandBytes(r, vfC20PadLen(r))), vfC20UDPAddr(refPeer)), false, -1})
 	}
 	seq++
 	tl = append(tl, inj{ref2End + time.Duration(1+r.Intn(30))*time.Millisecond, mk("punch-after-return", vfC20PunchValid(r, seq, refMeta), nil), true, -1})
@@ -264,7 +264,7 @@ func vfC20ServerCase(t *testing.T, k *vfKit, caseID string, r *rand.Rand) {
 				seq++
 				var from net.Addr
 				if r.Intn(2) == 0 {
-					from = udpAddrFromAddrPort(peers[i]) // even from the running attempt's own peer
+					from = vfC20UDPAddr(peers[i]) // even from the running attempt's own peer
 				}
 				typ := byte(1 + r.Intn(2))
 				data := vfC20RefEncodeValid(dupMeta, typ, vfC20Tag(seq), vfC20RandBytes(r, vfC20PadLen(r)))
@@ -303,6 +303,7 @@ func vfC20ServerCase(t *testing.T, k *vfKit, caseID string, r *rand.Rand) {
 		done      bool
 		regAfter  PunchMetadata
 		regExists bool
+		census    bool
 	}
 	type refOutT struct {
 		res       PunchResult
@@ -340,23 +341,23 @@ func vfC20ServerCase(t *testing.T, k *vfKit, caseID string, r *rand.Rand) {
 		}
 		res, err := sp.Respond(cctx, id, local, peersArg, meta, cfg)
 		refOut.res, refOut.err, refOut.at, refOut.done = res, err, time.Since(start), true
-		w.mu.RLock()
-		_, refOut.regExists = w.attempts[refID]
-		if _, e := w.attempts[""]; e {
-			refOut.regExists = true
+		if c := vfC20Census; c != nil {
+			_, refOut.regExists = c.Conn(w, refID)
+			if _, e := c.Conn(w, ""); e {
+				refOut.regExists = true
+			}
+			refOut.spExists = c.Server(sp, refID)
+			k.Count("ev_census_checks", 2)
 		}
-		w.mu.RUnlock()
-		sp.mu.Lock()
-		_, refOut.spExists = sp.attempts[refID]
-		sp.mu.Unlock()
 	}()
 	go func() {
 		time.Sleep(ref2At)
 		res, err := sp.Respond(ctx, refID, local, []netip.AddrPort{refPeer}, refMeta.PM(), PunchConfig{Timeout: ref2Timeout, Interval: 25 * time.Millisecond})
 		ref2Out.res, ref2Out.err, ref2Out.at, ref2Out.done = res, err, time.Since(start), true
-		w.mu.RLock()
-		_, ref2Out.regExists = w.attempts[refID]
-		w.mu.RUnlock()
+		if c := vfC20Census; c != nil {
+			_, ref2Out.regExists = c.Conn(w, refID)
+			k.Count("ev_census_checks", 1)
+		}
 	}()
 
 	dupOut := &dupOutT{}
@@ -366,9 +367,11 @@ func vfC20ServerCase(t *testing.T, k *vfKit, caseID string, r *rand.Rand) {
 			pl := plans[dupOf]
 			_, err := sp.Respond(ctx, pl.ID, local, []netip.AddrPort{peers[dupOf]}, dupMeta.PM(), PunchConfig{Timeout: pl.Timeout, Interval: pl.Every})
 			dupOut.err, dupOut.at, dupOut.done = err, time.Since(start), true
-			w.mu.RLock()
-			dupOut.regAfter, dupOut.regExists = w.attempts[pl.ID]
-			w.mu.RUnlock()
+			if c := vfC20Census; c != nil {
+				dupOut.regAfter, dupOut.regExists = c.Conn(w, pl.ID)
+				dupOut.census = true
+				k.Count("ev_census_checks", 1)
+			}
 		}()
 	}
 
@@ -441,9 +444,11 @@ func vfC20ServerCase(t *testing.T, k *vfKit, caseID string, r *rand.Rand) {
 				k.Count("ev_respond_cancel", 1)
 			}
 		}
-		w.mu.RLock()
-		_, still := w.attempts[pl.ID]
-		w.mu.RUnlock()
+		still := false
+		if c := vfC20Census; c != nil {
+			_, still = c.Conn(w, pl.ID)
+			k.Count("ev_census_checks", 1)
+		}
 		if still {
 			vfC20V(k, "realm:attempt-left-registered", rep, "attempt %s is still in the registry after Respond returned", pl.ID)
 		}
@@ -484,7 +489,7 @@ func vfC20ServerCase(t *testing.T, k *vfKit, caseID string, r *rand.Rand) {
 			vfC20V(k, "realm:duplicate-respond-not-refused", rep, "Respond(%s) with other metadata while the attempt was running returned %v at %v (issued at %v); want an immediate ErrInvalidPunchAttempt", pl.ID, dupOut.err, dupOut.at, dupAt)
 		default:
 			k.Count("ev_duplicate_refused", 1)
-			if !dupOut.regExists || dupOut.regAfter != metas[dupOf].PM() {
+			if dupOut.census && (!dupOut.regExists || dupOut.regAfter != metas[dupOf].PM()) {
 				vfC20V(k, "realm:refused-duplicate-changed-registry", rep,
 					"after the duplicate Respond(%s) was refused the demux holds (registered=%v) nonce=%s obfs=%s for that id; the running attempt's metadata is %s — a refused call never became a registered attempt",
 					pl.ID, dupOut.regExists, dupOut.regAfter.Nonce, dupOut.regAfter.Obfs, metas[dupOf])
@@ -549,8 +554,8 @@ func vfC20ServerCase(t *testing.T, k *vfKit, caseID string, r *rand.Rand) {
 	synctest.Wait()
 }
 
-func TestVerifC20ServerPunch(t *testing.T) {
-	k := vfNewKit(t, "C20", "server-punch")
+func vfC20RunServerPunch(t *testing.T, part string) {
+	k := vfNewKit(t, "C20", part)
 	defer k.Finish()
 	n := k.N(120, 2500)
 	for i := 0; i < n; i++ {
@@ -562,7 +567,10 @@ func TestVerifC20ServerPunch(t *testing.T) {
 		r := k.Rand(caseID)
 		synctest.Test(t, func(t *testing.T) { vfC20ServerCase(t, k, caseID, r) })
 		if i == 0 {
-			k.Sample(map[string]any{"case": caseID, "note": "two concurrent Respond calls on virtual time; see rule"})
+			k.Sample(map[string]any{"case": caseID, "white_box_census": vfC20Census != nil, "note": "two concurrent Respond calls, a duplicate-id Respond, a refused Respond and its successor, on virtual time; see rule"})
 		}
 	}
 }
+
+// TestVerifC20ServerPunch is the behavioural run (exported API only).
+func TestVerifC20ServerPunch(t *testing.T) { vfC20RunServerPunch(t, "server-punch") }
